@@ -220,6 +220,8 @@ pub fn arb_cb(nv: usize) -> BoxedStrategy<CB> {
         }),
         1 => (any::<u32>(), any::<u32>()).prop_map(move |(p, n)| CB::FromMask(p & n & vmask | (p & 3 & vmask), n & vmask & (p | 0xf))),
         2 => (0..=std::cmp::min(nv, 31), any::<u32>()).prop_map(|(n, m)| CB::Minterm(n, (m as usize) & ((1usize << n) - 1))),
+        // full support: a literal of every variable (the all-ones mask boundary)
+        1 => any::<u32>().prop_map(move |pol| CB::FromMask(pol & vmask, !pol & vmask)),
     ];
     leaf.prop_recursive(3, 8, 2, |inner| (inner.clone(), inner, 0u8..4).prop_map(|(a, b, f)| CB::And(Box::new(a), Box::new(b), f)))
         .boxed()
@@ -334,6 +336,8 @@ pub fn arb_eb(nv: usize) -> BoxedStrategy<EB> {
         2 => (0..nv).prop_map(EB::NthVar),
         2 => (0..nv).prop_map(EB::NthVarInv),
         6 => (vec(0..nv, 0..=5), any::<bool>()).prop_map(|(v, x)| EB::FromVars(v, x)),
+        // full or nearly full support (all nv variables, possibly one missing)
+        1 => (any::<bool>(), 0..=nv).prop_map(move |(x, skip)| EB::FromVars((0..nv).filter(|v| *v != skip).collect(), x)),
     ];
     leaf.prop_recursive(3, 8, 2, |inner| {
         prop_oneof![
@@ -388,7 +392,11 @@ pub fn sop_binop(a: Sop, b: Sop, and: bool, form: u8) -> Sop {
 
 /// cube lists with designed redundancy over n variables (n <= 10)
 pub fn arb_cube_list(n: usize, max_base: usize) -> BoxedStrategy<Vec<CB>> {
-    let base = vec(arb_cb(n), 0..=max_base);
+    // mostly short lists; occasionally long ones (size boundaries such as 64 / 128 entries)
+    let base = prop_oneof![
+        30 => vec(arb_cb(n), 0..=max_base),
+        1 => vec(arb_cb(n), 60..=140),
+    ];
     (base, vec((0u8..8, any::<u16>(), any::<u16>(), any::<bool>()), 0..=6))
         .prop_map(move |(mut cubes, extras)| {
             // contradictions cannot be passed to from_cubes (it rejects variables >= num_vars
@@ -635,6 +643,8 @@ pub fn arb_ob(n: usize, max_terms: usize) -> BoxedStrategy<OB> {
         1 => Just(OB::One),
         2 => var_leaf,
         8 => vec(arb_eb(n), 0..=max_terms).prop_map(OB::FromCubes),
+        // occasionally long term lists (size boundaries such as 64 / 128 terms)
+        1 => vec(arb_eb(n), 30..=140).prop_map(OB::FromCubes),
     ];
     leaf.prop_recursive(2, 6, 2, |inner| (inner.clone(), inner, 0u8..4).prop_map(|(a, b, f)| OB::Or(Box::new(a), Box::new(b), f)))
         .boxed()
